@@ -148,6 +148,20 @@ CHECKS = {
         note='Containment is decided mostly by the workload grammar (input generation); simulation adds the audited real file '
              'system, the error paths and the read-schedule dimension. Weak reading of "names a regular file inside the '
              'directory" by default (VERIF_C16_STRICT=1 selects the strict one).'),
+    'C13': dict(
+        level='exploration', ref='DESIGN.md section 4 (C13)',
+        technique=TECH + 'reference-encoded forms sent through real WSGI and ASGI apps under seeded transport chunkings '
+                  '(down to 1 byte, short reads), reader chunk-size and parse-limit knobs, per-part consumption histories; '
+                  'truncation at every event edge and single-byte corruption swept; flat reference parser as oracle',
+        text='Seeded exploration with a fault sweep: forms from an independent reference encoder (RFC 7578/2046/5987) are '
+             'parsed by the real sync and async multipart parsers in the same run, with the transport chunking, reader '
+             'chunk size (from the smallest legal value), limits at threshold-1/threshold/threshold+1 and the per-part '
+             'consumption pattern drawn by the simulator. Faults: http.disconnect / early EOF at every event edge, single '
+             'byte flip/delete/insert. Oracles: exact parts for valid bodies, limits exact at thresholds, 4xx-class parse '
+             'error or normal result (never another exception, never a hang) for invalid bodies, no silently wrong parts '
+             'where a flat reference parser is unambiguous, WSGI/ASGI agreement.',
+        note='After a fault parts are compared only where every reading of the RFCs agrees; one known finding (quoted '
+             'boundary containing a comma is answered 415 by media-type matching) is listed in known_findings.json.'),
 }
 
 NOT_YET = {p: 'claimed in DESIGN.md; check under construction in this round (not yet registered)' for p in
